@@ -60,6 +60,66 @@ pub fn material_position(rng: &mut Rng, white: &[Kind], black: &[Kind], stm: Col
     }
 }
 
+/// Sparse material with the defending king in a corner, hemmed in by its own men (smothered and
+/// corner mates: knight or bishop against knight, bishop, pawn or rook - endings in which a mate
+/// exists although neither side could force one).
+pub fn cornered_position(rng: &mut Rng) -> Option<Pos> {
+    let mut p = Pos::empty();
+    let (cf, cr) = *rng.pick(&[(0, 0), (0, 7), (7, 0), (7, 7)]);
+    let corner = sq_at(cf, cr).unwrap();
+    p.sq[corner as usize] = Some((Color::Black, Kind::King));
+    let mut neigh: Vec<u8> = Vec::new();
+    for df in -1..=1 {
+        for dr in -1..=1 {
+            if (df, dr) != (0, 0) {
+                if let Some(s) = sq_at(cf + df, cr + dr) {
+                    neigh.push(s);
+                }
+            }
+        }
+    }
+    rng.shuffle(&mut neigh);
+    let n_def = 1 + rng.below(2) as usize;
+    for s in neigh.iter().take(n_def) {
+        let k = *rng.pick(&[Kind::Knight, Kind::Bishop, Kind::Pawn, Kind::Rook, Kind::Knight, Kind::Bishop]);
+        if k == Kind::Pawn && (rank_of(*s) == 0 || rank_of(*s) == 7) {
+            continue;
+        }
+        p.sq[*s as usize] = Some((Color::Black, k));
+    }
+    for _ in 0..20 {
+        let f = cf + rng.range(-3, 4) as i32;
+        let r = cr + rng.range(-3, 4) as i32;
+        if let Some(s) = sq_at(f, r) {
+            if p.sq[s as usize].is_none() && ((f - cf).abs().max((r - cr).abs())) >= 2 {
+                p.sq[s as usize] = Some((Color::White, Kind::King));
+                break;
+            }
+        }
+    }
+    if !p.sq.iter().any(|x| *x == Some((Color::White, Kind::King))) {
+        return None;
+    }
+    let n_att = 1 + rng.below(2) as usize;
+    for _ in 0..n_att {
+        let k = *rng.pick(&[Kind::Knight, Kind::Bishop, Kind::Knight, Kind::Bishop, Kind::Rook, Kind::Pawn]);
+        for _ in 0..10 {
+            let s = rng.below(64) as u8;
+            if p.sq[s as usize].is_none() && !(k == Kind::Pawn && (rank_of(s) == 0 || rank_of(s) == 7)) {
+                p.sq[s as usize] = Some((Color::White, k));
+                break;
+            }
+        }
+    }
+    p.stm = if rng.chance(2, 3) { Color::White } else { Color::Black };
+    let p = if rng.chance(1, 2) { mirror(&p) } else { p };
+    if is_legal_position(&p) {
+        Some(p)
+    } else {
+        None
+    }
+}
+
 const MATERIALS: &[(&[Kind], &[Kind])] = &[
     (&[Kind::Queen], &[]),
     (&[Kind::Rook], &[]),
@@ -308,7 +368,7 @@ pub fn check_root(root: &Root, classes: &[Class], depth: u8, h: &ZobristHasher, 
 
 pub fn run(tier: Tier, seed: u64) -> i32 {
     let mut run = Run::new("C11", tier, seed, "exploration");
-    run.rule = "evaluation = one real search (virtual clock, all iterations up to the limit complete) on a root near mate or stalemate, judged by the oracle's full-width mate solver: (1) mate-in-1 roots: the move standing after every completed iteration mates; (2) roots where some but not all moves allow a mate in one: the move standing after iterations 2 and 3 is not one of them; (3) every line `mate N`, 0<N<=3, requires a forced mate in <= N; `mate -N` on the last line of a completed depth requires mated-in-N; (4) a line reporting on a move that stalemates the opponent must not carry a mate score. Roots: sampled endgame families (KQK, KRK, KRRK, KBBK, KBNK, KQKR, pawn endings, ...) biased to edge/corner kings, positions 1-5 plies before a checkmate in oracle-driven games with full material, the library's mate/stalemate entries. Non-trivial = root classified mate-in-1 / avoidable mate / mated soon / stalemate trap; distinct by (root FEN, depth limit)".into();
+    run.rule = "evaluation = one real search (virtual clock, all iterations up to the limit complete) on a root near mate or stalemate, judged by the oracle's full-width mate solver: (1) mate-in-1 roots: the move standing after every completed iteration mates; (2) roots where some but not all moves allow a mate in one: the move standing after iterations 2 and 3 is not one of them; (3) every line `mate N`, 0<N<=3, requires a forced mate in <= N; `mate -N` on the last line of a completed depth requires mated-in-N; (4) a line reporting on a move that stalemates the opponent must not carry a mate score. Roots: sampled endgame families (KQK, KRK, KRRK, KBBK, KBNK, KQKR, pawn endings, ...) biased to edge/corner kings, sparse material with a cornered king hemmed in by its own men (minor piece against minor piece, pawn or rook: smothered and corner mates), positions 1-5 plies before a checkmate in oracle-driven games with full material, the library's mate/stalemate entries. Non-trivial = root classified mate-in-1 / avoidable mate / mated soon / stalemate trap; distinct by (root FEN, depth limit)".into();
     run.assumptions = vec![
         "negative mate claims are judged only on the last line of a completed depth (intermediate lines describe the first move tried, not the position)".into(),
         "claims with |N| > 3 or beyond the solver's node budget are counted as unchecked, not decided".into(),
@@ -327,10 +387,18 @@ pub fn run(tier: Tier, seed: u64) -> i32 {
             tries += 1;
             let (w, b) = MATERIALS[rng.below(MATERIALS.len() as u64) as usize];
             let stm = if rng.chance(2, 3) { Color::White } else { Color::Black };
-            if let Some(p) = material_position(&mut rng, w, b, stm) {
+            let cornered = tries % 5 == 0;
+            let cand = if cornered { cornered_position(&mut rng) } else { material_position(&mut rng, w, b, stm) };
+            if let Some(p) = cand {
                 let cl = classify(&p);
                 if cl.is_empty() {
                     continue;
+                }
+                if cornered {
+                    if cl == vec![Class::Other] {
+                        continue;
+                    }
+                    acc.count("cornered_king_sparse_material_roots", 1);
                 }
                 // keep all interesting ones and a few others
                 if cl != vec![Class::Other] || rng.chance(1, 30) {
